@@ -9,7 +9,7 @@ import re
 import featlib
 from featlib import Check, render, walk, children
 import ikinds
-from ikinds import (Contracts, FnKinds, FunctionIndex, Lin, Rng, Top, strip, _subscript, _is_incdec, _is_deref, coverage, mask_test, frames_key)
+from ikinds import (Contracts, FnKinds, FunctionIndex, Lin, Rng, Top, strip, _subscript, _is_incdec, _is_deref, coverage, mask_test, frames_key, elsewhere)
 
 ADJ = featlib.repo_path("kernel/adjacency/")
 SCOPE_RE = r"kernel/adjacency/(graph|permutation|coloring|cuthill_mckee|dynamic_graph)\.(hpp|cpp)$"
@@ -92,6 +92,20 @@ def seed(fk):
             (re.search(r"Adjacency::CuthillMcKee$", cls) and fn.name == "compute" and fn.param("graph")):
         # colouring / ordering of the nodes of a node-to-node adjacency graph
         fk.unify(Lin.atom("Img(graph)"), Lin.atom("Dom(graph)"), "node adjacency graph: image set = domain set")
+
+
+NAMES = ("calc_swap_from_perm", "calc_perm_from_swap", "size", "apply", "get_perm_pos", "get_swap_pos", "sort_indices", "get_num_nodes_domain")
+
+
+def vob(ck, fk, keys, names, rule, key, ok, detail, file=None, line=None, **kw):
+    """obligation whose failure may be a MISSING effect: if the function hands one of the objects `keys` to an unmodelled callee / has a
+    member helper or lambda that could do the work, the verdict is 'not evaluable' instead of a violation"""
+    if not ok:
+        why = elsewhere(fk, keys, names=names)
+        if why:
+            ck.incomplete(rule, "%s: %s -- but %s" % (key, detail[:200], why))
+            return False
+    return ck.ob(rule, key, ok, detail, file, line, **kw)
 
 
 def short(fn):
@@ -193,6 +207,9 @@ def rule_safety(w):
                     else:
                         undecided[e.rng.cls] += 1
                     continue
+                if e.rng.exact is not None and _caller_index(fk, fn, e.rng.exact):
+                    undecided["caller"] += 1
+                    continue
                 key = "%s/%s.%s(%s=%s)" % (name, e.obj, e.callee.rsplit("::", 1)[-1], e.param, e.arg_canon)
                 detail = "argument %s of %s(%s): value in %r, admissible [0,%r)" % (render(e.arg), e.callee, e.param, e.rng, e.extent)
                 obs.setdefault(key, []).append((bool(e.ok), detail, fn.file, e.node.get("l")))
@@ -202,6 +219,9 @@ def rule_safety(w):
                         ck.incomplete("E2.safety", "%s: domain node %s of %s.image_*() not classifiable" % (inst, render(e.node_expr), e.obj))
                     else:
                         undecided[e.rng.cls] += 1
+                    continue
+                if e.rng.exact is not None and _caller_index(fk, fn, e.rng.exact):
+                    undecided["caller"] += 1
                     continue
                 if e.dom is None:
                     ck.incomplete("E2.safety", "%s: adjactor %s of image_*() not nameable" % (inst, render(e.node)))
@@ -710,6 +730,48 @@ def rule_dyn_render(w, fn):
         got, "transposed" if want == tr else "plain", ", ".join(adjs), want), fn.file, fn.line)
 
 
+def rule_dyn_compose(w):
+    """DynamicGraph::compose(adj): afterwards the graph is (Dom(this), Img(adj)) and holds image nodes of adj"""
+    ck = w.ck
+    fns = [fn for fn in w.fns if re.search(r"Adjacency::DynamicGraph$", fn.cls or "") and fn.name == "compose" and fn.tk == "inst"]
+    if not fns:
+        ck.incomplete("E1.render-roles", "DynamicGraph::compose not instantiated by the driver")
+    for fn in fns:
+        fk = w.fk(fn)
+        name = short_noinst(fn)
+        adj = fn.params[0]["n"]
+        if fk.unknown:
+            ck.incomplete("E1.render-roles", "%s: %s" % (name, "; ".join(x[0] for x in fk.unknown)))
+            continue
+        img_sets = [e for e in fk.events if e.kind == "field" and e.key == "this._num_nodes_image"]
+        dom_sets = [e for e in fk.events if e.kind == "field" and e.key == "this._num_nodes_domain"]
+        want = fk.norm(Lin.atom("Img(%s)" % adj))
+        if any(e.val is None for e in img_sets + dom_sets) or any(e.frames for e in img_sets + dom_sets):
+            ck.incomplete("E1.render-roles", "%s: the node counts are assigned values that are not size expressions / conditionally" % name)
+            continue
+        why = elsewhere(fk, ("this._num_nodes_image", "this._num_nodes_domain"))
+        problems = []
+        if dom_sets:
+            problems.append("the domain node count is changed to %r" % fk.norm(dom_sets[-1].val))
+        if not img_sets:
+            if why:
+                ck.incomplete("E1.render-roles", "%s: no assignment of _num_nodes_image found; %s" % (name, why))
+                continue
+            problems.append("_num_nodes_image is not updated: it keeps the pre-composition image count %r" % fk.norm(Lin.atom("this._num_nodes_image")))
+        else:
+            got = fk.norm(img_sets[-1].val)
+            if got != want:
+                problems.append("_num_nodes_image is set to %r; the composed relation maps into the image set of %s, %r (differs for a non-square adjactor)" % (got, adj, want))
+        # the indices inserted are image nodes of adj
+        ins = [e for e in fk.events if e.kind == "call" and e.name == "insert" and (e.callee or "").startswith("std::") and e.args_rng]
+        for e in ins:
+            r0 = e.args_rng[0]
+            if isinstance(r0, Rng) and not fk.within(r0, want):
+                problems.append("inserted index %s has kind %r, not an image node of %s" % (e.args_canon[0], r0, adj))
+        ck.ob("E1.render-roles", name, not problems, "; ".join(problems) if problems else
+              "after compose(%s): domain count unchanged, _num_nodes_image = %r, inserted indices are image nodes of %s" % (adj, want, adj), fn.file, img_sets[-1].node.get("l") if img_sets else fn.line)
+
+
 def render_two_pass(w, r):
     ck = w.ck
     fk = r.fk
@@ -728,7 +790,7 @@ def render_two_pass(w, r):
     if ok is None:
         ck.incomplete("E2.coverage", "%s: %s" % (name, detail))
     else:
-        ob("E2.coverage", "_domain_ptr", ok, detail)
+        vob(ck, fk, (P,), NAMES, "E2.coverage", "%s/_domain_ptr" % name, ok, detail, fn.file, fn.line)
 
     # ---- classify passes ------------------------------------------------------------------------------
     count_pass = fill_pass = None
@@ -804,7 +866,7 @@ def render_two_pass(w, r):
             adv_ok = True
     if len(advs_f) != 1 or not adv_ok:
         problems.append("the fill cursor is advanced %d times per stored adjacency / not in the context of the store" % len(advs_f))
-    ck.ob("E3.two-pass", name, not problems, "; ".join(problems) if problems else
+    vob(ck, fk, (P, I), NAMES, "E3.two-pass", name, not problems, "; ".join(problems) if problems else
           "counting and filling pass traverse %s with identical loop nests and filters (%d skeleton events); one store + one cursor advance per counted adjacency" % (count_pass[0].canon, len(pc)),
           fn.file, count_pass[0].node.get("l"), sample={"count_ctx": sorted(ctx_c), "fill_ctx": sorted(ctx_f)})
 
@@ -1003,7 +1065,7 @@ def mask_reset(w, r, pname, ps):
     other = [e for e in evs if e.kind == "sub" and e.arr.key == mask and e.mode == "write" and e not in sets and e not in resets]
     if other:
         problems.append("other writes to the mask")
-    ck.ob("E3.mask-reset", name, not problems, "; ".join(problems) if problems else
+    vob(ck, fk, tuple(r.masks), NAMES, "E3.mask-reset", name, not problems, "; ".join(problems) if problems else
           "test %s[%s]==0 / mark =1 / reset =0 over the identical loop nest [%s] in every outer iteration; mask zero-initialised over %r" % (mask, x, tf, fk.norm(marr.extent)),
           fn.file, t.node.get("l"))
 
@@ -1048,7 +1110,7 @@ def rule_coverage_misc(w):
             if ok is None:
                 ck.incomplete("E2.coverage", "%s: %s" % (short_noinst(fn), detail))
             else:
-                ck.ob("E2.coverage", "%s/%s" % (short_noinst(fn), key), ok, detail, fn.file, fn.line)
+                vob(ck, fk, (key,), NAMES, "E2.coverage", "%s/%s" % (short_noinst(fn), key), ok, detail, fn.file, fn.line)
 
 
 # -------------------------------------------------------------------------------------------------
@@ -1152,7 +1214,7 @@ def rule_permutation(w):
                 if ename in ("none", "identity"):
                     if not any(e.kind == "return" for e in evs):
                         problems.append("arm does not return (falls through to the input-array conversions)")
-                ck.ob("E13.perm-dispatch", key, not problems, "; ".join(problems) if problems else "%s: %s%s" % (
+                vob(ck, fk, ("this._perm_pos", "this._swap_pos"), NAMES, "E13.perm-dispatch", key, not problems, "; ".join(problems) if problems else "%s: %s%s" % (
                     ename, "; ".join("%s[%s] = %s" % x for x in sorted(got)) or "no assignment", (" then %s()" % fin) if fin else ""), fn.file, fr.node.get("l"))
         for ename in PERM_TABLE:
             if ename not in seen_labels:
@@ -1291,7 +1353,7 @@ def rule_permutation(w):
         calls = [e for e in fk.events if e.kind == "call" and e.name == "calc_swap_from_perm" and not e.frames and ws and e.seq > ws[-1].seq]
         if len(calls) != 1:
             problems.append("swap array is not recomputed by calc_swap_from_perm() after the composition")
-        ck.ob("E2.perm-forms", "Permutation::concat(p)", not problems, "; ".join(problems) if problems else
+        vob(ck, fk, ("this._perm_pos", "this._swap_pos"), NAMES, "E2.perm-forms", "Permutation::concat(p)", not problems, "; ".join(problems) if problems else
               "perm_pos[i] = p.perm_pos[perm_pos[i]] over [0,size()), then calc_swap_from_perm()", fn.file, fn.line)
     for fn in one(w, r"Permutation::calc_perm_from_swap$"):
         fk = w.fk(fn)
@@ -1309,7 +1371,7 @@ def rule_permutation(w):
                 okc = True
         if not okc:
             problems.append("the swaps are not applied (forward) to the identity in perm_pos")
-        ck.ob("E2.perm-forms", "Permutation::calc_perm_from_swap()", not problems, "; ".join(problems) if problems else
+        vob(ck, fk, ("this._swap_pos",), NAMES, "E2.perm-forms", "Permutation::calc_perm_from_swap()", not problems, "; ".join(problems) if problems else
               "perm_pos = identity, then forward in-situ application of the swaps to perm_pos", fn.file, fn.line)
 
 
@@ -1360,7 +1422,7 @@ def rule_coloring(w):
                 want = "%s[graph._image_idx[$%d]]" % (C, lp.depth)
                 if m.idx_canon != want:
                     problems.append("marked entry is %s[%s], not the colour of the neighbour %s" % (M, m.idx_canon, want))
-        ck.ob("E7.greedy-colour", name + "/mask-from-node", not problems, "; ".join(problems) if problems else
+        vob(ck, fk, (M, C) if M else (C,), NAMES, "E7.greedy-colour", name + "/mask-from-node", not problems, "; ".join(problems) if problems else
               "mask %s[colour of neighbour] = 1 for the neighbours in the adjacency list of the node that receives the colour (%s)" % (M, ", ".join(nodes)), fn.file, marks[0].node.get("l") if marks else fn.line)
         if M is None:
             continue
@@ -1375,7 +1437,7 @@ def rule_coloring(w):
                 okr = True
         if not okr:
             problems.append("mask %s is not reset to 0 over its whole extent %r at the start of each node iteration" % (M, fk.norm(fk.arrs[M].extent) if fk.arrs[M].extent is not None else None))
-        ck.ob("E7.greedy-colour", name + "/mask-reset", not problems, "; ".join(problems) if problems else "mask %s reset over [0,%r) before the neighbours are marked" % (M, fk.norm(fk.arrs[M].extent)),
+        vob(ck, fk, (M,), NAMES, "E7.greedy-colour", name + "/mask-reset", not problems, "; ".join(problems) if problems else "mask %s reset over [0,%r) before the neighbours are marked" % (M, fk.norm(fk.arrs[M].extent)),
               fn.file, resets[0].node.get("l") if resets else fn.line)
         # (3) the chosen colour is tested against the mask
         problems = []
@@ -1408,7 +1470,9 @@ def rule_coloring(w):
                     continue
                 tested = False
                 for f in ifs:
-                    if f.branch == "then" and f.canon in ("(%s[$1] != 1)" % M, "(%s[$1] == 0)" % M, "!%s[$1]" % M):
+                    if f.branch == "then" and _tests_unmarked(fk, f.node.get("c"), M, lps[0].loop.var, True):
+                        tested = True
+                    if f.branch == "else" and _tests_unmarked(fk, f.node.get("c"), M, lps[0].loop.var, False):
                         tested = True
                 if not tested:
                     problems.append("candidate colour $1 is accepted without the test %s[$1] != 1 (colour not used by a neighbour)" % M)
@@ -1435,8 +1499,46 @@ def rule_coloring(w):
             incs = [x for x in inl if x.kind == "field" and x.key == "this._num_colors" and x.get("op") == "++" and frames_key(x.frames) == frames_key(e.frames) and x.seq > e.seq]
             if len(incs) != 1:
                 problems.append("_num_colors is not incremented once after a new colour was handed out")
-        ck.ob("E7.greedy-colour", name + "/colour-choice", not problems, "; ".join(problems) if problems else
+        vob(ck, fk, (M, C), NAMES, "E7.greedy-colour", name + "/colour-choice", not problems, "; ".join(problems) if problems else
               "a used colour j is chosen only under %s[j] != 1; otherwise the new colour _num_colors is assigned and counted" % M, fn.file, assigns[0].node.get("l"))
+
+
+def _tests_unmarked(fk, c, M, jvar, positive):
+    """does the condition (taken as true if `positive`, as false otherwise) imply  M[j] is not marked (!= 1 / == 0)?"""
+    c = strip(c)
+    if c is None:
+        return False
+    k = c.get("k")
+    if k == "Un" and c.get("op") == "!":
+        return _tests_unmarked(fk, c["e"], M, jvar, not positive)
+    if k == "Bin" and c.get("op") == "&&":
+        return positive and (_tests_unmarked(fk, c["lhs"], M, jvar, True) or _tests_unmarked(fk, c["rhs"], M, jvar, True))
+    if k == "Bin" and c.get("op") == "||":
+        return (not positive) and (_tests_unmarked(fk, c["lhs"], M, jvar, False) or _tests_unmarked(fk, c["rhs"], M, jvar, False))
+
+    def is_m(x):
+        x = strip(x)
+        sub = _subscript(x)
+        if sub is None:
+            return False
+        a = fk.sub_arr(x)
+        ix = strip(sub[1])
+        return a is not None and a.key == M and ix.get("k") == "Ref" and ix.get("d") == jvar
+    if is_m(c):
+        return not positive          # `M[j]` true means marked
+    if k == "Bin" and c.get("op") in ("==", "!="):
+        l, r = strip(c["lhs"]), strip(c["rhs"])
+        if is_m(r):
+            l, r = r, l
+        if is_m(l):
+            v = fk.size(r)
+            if v is not None and v.is_const():
+                eq = (c["op"] == "==") == positive          # effective relation M[j] == v (True) or != v (False)
+                if v.c == 1:
+                    return not eq
+                if v.c == 0:
+                    return eq
+    return False
 
 
 # -------------------------------------------------------------------------------------------------
@@ -1479,7 +1581,7 @@ def rule_cuthill(w):
             segs = [f for f in e.frames if f.kind == "loop" and f.loop is not None and f.loop.kind == "seg"]
             if not (len(segs) == 1 and segs[0].loop.pair_ok and segs[0].loop.canon.startswith("seg(graph._domain_ptr,%s[" % PA) and x == "graph._image_idx[$%d]" % segs[0].loop.depth):
                 problems.append("the entered node is not an element of the adjacency list of an already ordered node")
-        ck.ob("E7.cm-insert", "CuthillMcKee::compute/%s" % what, not problems, "; ".join(problems) if problems else
+        vob(ck, fk, tuple(k2 for k2, a2 in fk.arrs.items() if a2.owner == "local" and a2.fresh), NAMES, "E7.cm-insert", "CuthillMcKee::compute/%s" % what, not problems, "; ".join(problems) if problems else
               "%s %s: marked as processed in the block that stores it%s" % (what, x, ", stored only if unmarked and taken from the adjacency list of an ordered node" if what == "neighbour" else ""), fn.file, e.node.get("l"))
     # ---- root selection per RootType ---------------------------------------------------------------------
     roots = [e for e in ins if not [f for f in e.frames if f.kind == "if"]]
@@ -1546,7 +1648,7 @@ def rule_cuthill(w):
     rets = [n for n, f, a in fk.returns if n is not None]
     okf = len(calls) == 1 and all(fk.okey(strip(r.get("e"))) == "perm" or render(strip(r.get("e"))).find("perm") >= 0 for r in rets) and \
         all(e.seq < calls[0].seq for e in fk.events if e.kind == "sub" and e.mode == "write" and e.arr.key == PA)
-    ck.ob("E7.cm-finalise", "CuthillMcKee::compute", okf, "calc_swap_from_perm() is called once after the last store into the permutation array and before `return perm`" if okf else
+    vob(ck, fk, ("perm",), NAMES, "E7.cm-finalise", "CuthillMcKee::compute", okf, "calc_swap_from_perm() is called once after the last store into the permutation array and before `return perm`" if okf else
           "the swap array of the returned permutation is not recomputed after the ordering was built", fn.file, calls[0].node.get("l") if calls else fn.line)
 
 
@@ -1799,9 +1901,31 @@ def rule_serial(w):
         problems = []
         unclear_sort = [x[0] for x in fk.unknown]
         if len(calls) != 1:
-            problems.append("%d sort calls" % len(calls))
+            why = elsewhere(fk, ("this._image_idx", "this._domain_ptr"))
+            if why or len(calls) > 1:
+                unclear_sort.append("%d direct sort calls; %s" % (len(calls), why or "several sorts are not modelled"))
+            else:
+                problems.append("the image indices are not sorted at all (no sort call, no helper that could do it)")
         else:
             c = calls[0]
+            # the sort must be reached for every node: no data dependent way out of / around the loop body before it
+            lpnode = [f for f in c.frames if f.kind == "loop"]
+            for e in fk.events:
+                if lpnode and e.frames and e.frames[0].node is lpnode[0].node and e.seq < c.seq and e.kind in ("break", "continue", "return"):
+                    ifs = [f for f in e.frames if f.kind == "if"]
+                    empty_list = bool(ifs) and _is_empty_list_test(fk, ifs[-1], lpnode[0].loop)
+                    if e.kind == "continue" and empty_list == "then" == ifs[-1].branch:
+                        continue          # skipping a node without adjacencies: nothing to sort
+                    if e.kind in ("break", "return") and empty_list == ifs[-1].branch if ifs else False:
+                        problems.append("the loop over the domain nodes is left by `%s` at the first node without adjacencies (line %s): the adjacency lists of all later nodes "
+                                        "stay unsorted" % (e.kind, e.node.get("l")))
+                    else:
+                        unclear_sort.append("`%s` under %s before the sort: which nodes are skipped is not evaluable" % (e.kind, ifs[-1].canon if ifs else "no condition"))
+            cif = [f for f in c.frames if f.kind == "if"]
+            for f in cif:
+                t = _is_empty_list_test(fk, f, lpnode[0].loop if lpnode else None)
+                if not (t and t != f.branch):
+                    unclear_sort.append("the sort is executed only under %s: which nodes are skipped is not evaluable" % f.canon)
             lps = [f.loop for f in c.frames if f.kind == "loop"]
             if len(lps) != 1 or lps[0].kind != "range" or lps[0].lo != 0 or lps[0].hi is None or fk.norm(lps[0].hi) + 1 != fk.norm(Lin.atom("size(this._domain_ptr)")):
                 problems.append("the sort is not applied for every domain node in [0,|_domain_ptr|-1)")
@@ -1827,6 +1951,42 @@ def rule_serial(w):
             continue
         ck.ob("E2.sort-segment", "Graph::sort_indices()", not problems, "; ".join(problems) if problems else
               "std::sort over [_image_idx.begin()+_domain_ptr[i], _image_idx.begin()+_domain_ptr[i+1]) for every domain node i", fn.file, fn.line)
+
+
+def _is_empty_list_test(fk, frame, lp):
+    """'then' / 'else': the branch of the if-frame that is taken exactly when the adjacency list of the loop's node is empty
+    (P[i] == P[i+1], P[i+1] == P[i], P[i] != P[i+1], P[i+1] - P[i] == 0, P[i] >= P[i+1]); None if the condition is something else"""
+    c = strip(frame.node.get("c"))
+    if lp is None or c is None or c.get("k") != "Bin" or c.get("op") not in ("==", "!=", ">=", "<"):
+        return None
+    l, r = strip(c["lhs"]), strip(c["rhs"])
+
+    def off(x):
+        sub = _subscript(x)
+        if sub is None:
+            return None
+        a = fk.sub_arr(x)
+        if a is None or not a.key.endswith("._domain_ptr"):
+            return None
+        ix = strip(sub[1])
+        if ix.get("k") == "Ref" and ix.get("d") == lp.var:
+            return 0
+        if ix.get("k") == "Bin" and ix.get("op") == "+" and strip(ix["lhs"]).get("d") == lp.var and fk.size(ix["rhs"]) == Lin.const(1):
+            return 1
+        return None
+    a, b = off(l), off(r)
+    if a is None or b is None or a == b:
+        return None
+    op = c["op"]
+    if op == "==":
+        return "then"
+    if op == "!=":
+        return "else"
+    if op == ">=" and a == 0:      # P[i] >= P[i+1]  <=> empty (offsets are monotone)
+        return "then"
+    if op == "<" and a == 0:       # P[i] < P[i+1] <=> non-empty
+        return "else"
+    return None
 
 
 # -------------------------------------------------------------------------------------------------
@@ -2142,7 +2302,7 @@ def run(tier):
             "`transpose` <-> domain/image swapped, `injectify` <-> duplicate filter, `_sorted` <-> sort_indices() (transposes are sorted by construction), "
             "adjactors passed in order (base.hpp RenderType documentation)", 16)
     ck.rule("E1.render-roles", "on every exit a render function leaves |_domain_ptr| = Dom+1 and _num_nodes_image = Img of the rendered relation: (Dom(adj1), Img(adjN)) "
-            "or, transposed, (Img(adjN), Dom(adj1)); two exits never disagree (breaks for rectangular adjactors)", 8)
+            "or, transposed, (Img(adjN), Dom(adj1)); two exits never disagree; DynamicGraph::compose(adj) leaves (Dom(this), Img(adj)) (breaks for rectangular adjactors)", 9)
     ck.rule("E2.coverage", "an array handed to the result is assigned on its whole extent on every path (loops over the extent, terminal offsets, zero-fill + prefix sum); "
             "otherwise a tail stays uninitialised for some size", 21)
     ck.rule("E3.two-pass", "the counting pass and the filling pass of a render function traverse the same iteration space with the same filter "
@@ -2177,7 +2337,8 @@ def run(tier):
     ck.rule("E7.callee-precond", "length assertions at the entry of a member function called by a render constructor (sort_indices) are implied by what the render function "
             "just built; a length that is the number of counted adjacencies has no lower bound (relation without adjacencies)", 1)
     ck.rule("E12.serial-layout", "Graph(buffer) reads what Graph::serialize wrote: header slots and payload sections agree symbolically (sizes, order, advance)", 7)
-    ck.rule("E2.sort-segment", "sort_indices sorts exactly the adjacency list [P[i],P[i+1]) of every domain node (sorting keeps each adjacency set)", 1)
+    ck.rule("E2.sort-segment", "sort_indices sorts exactly the adjacency list [P[i],P[i+1]) of every domain node: the sort is reached in every iteration of the loop over [0,Dom) "
+            "(only nodes without adjacencies may be skipped; a `break` at an empty list leaves all later lists unsorted)", 1)
     w = World(ck, tier)
     rule_safety(w)
     rule_pairs(w)
@@ -2191,6 +2352,7 @@ def run(tier):
     rule_serial(w)
     rule_iter_invariant(w)
     rule_callee_precond(w)
+    rule_dyn_compose(w)
     ck.assume("adjactor interface contract (adjactor.hpp): image_begin/image_end(n) take n < get_num_nodes_domain(), iteration yields indices < get_num_nodes_image(); "
               "Graph: |_domain_ptr| = num_nodes_domain+1 (when not empty), offsets monotone with _domain_ptr[num_nodes_domain] = |_image_idx|, image indices < num_nodes_image")
     ck.assume("Permutation arrays hold values < size(); the input array v of Permutation(num_entries, type, v) and the `order` array of Coloring(graph, order) have one entry per "
